@@ -1,5 +1,23 @@
 package eng
 
+import (
+	"bytes"
+	"context"
+	"fmt"
+	"math/rand"
+	"net/http"
+
+	"github.com/buchgr/bazel-remote/v2/cache"
+	pb "github.com/buchgr/bazel-remote/v2/genproto/build/bazel/remote/execution/v2"
+	"google.golang.org/grpc/codes"
+	"google.golang.org/grpc/status"
+	"google.golang.org/protobuf/encoding/protojson"
+	"google.golang.org/protobuf/proto"
+
+	"verif/harness/internal/drv"
+	"verif/harness/internal/fe"
+)
+
 // ACUpload is one upload of a history of ActionCache.tla.
 type ACUpload struct {
 	Enc string `json:"enc"`
@@ -11,4 +29,293 @@ type ACHist struct {
 	Uploads  []ACUpload `json:"uploads"`
 	Outcomes []string   `json:"outcomes"`
 	Stored   int        `json:"stored"`
+}
+
+// ACHistRun describes one executed history.
+type ACHistRun struct {
+	Hist     ACHist   `json:"hist"`
+	Answers  []string `json:"answers"`
+	ReadBack string   `json:"read_back"`
+}
+
+func dg(b []byte) *pb.Digest { return &pb.Digest{Hash: drv.MkBlob(b).Hash, SizeBytes: int64(len(b))} }
+
+// buildMsg returns the message of a class. Referenced blobs of valid
+// messages are stored in the CAS first so that a later hit is possible.
+// raw is used instead of the marshalled message when non-nil.
+func buildMsg(f *fe.Fixture, rng *rand.Rand, class string) (ar *pb.ActionResult, raw []byte, err error) {
+	ctx := context.Background()
+	store := func(b []byte) *pb.Digest {
+		d := dg(b)
+		if e := f.Cache.Put(ctx, cache.CAS, d.Hash, d.SizeBytes, bytes.NewReader(b)); e != nil {
+			err = e
+		}
+		return d
+	}
+	blob := func() []byte { return drv.GenData(rng, 30+rng.Intn(300), rng.Intn(3)) }
+	base := func() *pb.ActionResult {
+		return &pb.ActionResult{
+			OutputFiles: []*pb.OutputFile{{Path: fmt.Sprintf("bazel-out/f%d", rng.Intn(1e6)), Digest: store(blob()), IsExecutable: rng.Intn(2) == 0}},
+			ExitCode:    int32(rng.Intn(3)),
+		}
+	}
+	ar = base()
+	good := store(blob())
+	// every class is combined with otherwise arbitrary valid content
+	if class != "plain" && class != "withWorker" {
+		if rng.Intn(2) == 0 {
+			ar.ExecutionMetadata = &pb.ExecutedActionMetadata{Worker: fmt.Sprintf("host-%d", rng.Intn(1000))}
+		}
+		if rng.Intn(3) == 0 {
+			ar.OutputSymlinks = append(ar.OutputSymlinks, &pb.OutputSymlink{Path: "bazel-out/extra-link", Target: "somewhere"})
+		}
+		if rng.Intn(3) == 0 {
+			ar.StderrDigest = store(blob())
+		}
+	}
+	switch class {
+	case "plain":
+	case "withWorker":
+		ar.ExecutionMetadata = &pb.ExecutedActionMetadata{Worker: fmt.Sprintf("worker-%d", rng.Intn(1000))}
+	case "inlineStdout":
+		ar.StdoutRaw = blob()
+	case "inlineFile":
+		c := blob()
+		ar.OutputFiles = append(ar.OutputFiles, &pb.OutputFile{Path: "bazel-out/inlined", Digest: dg(c), Contents: c})
+	case "withTree":
+		file := store(blob())
+		tree := &pb.Tree{Root: &pb.Directory{Files: []*pb.FileNode{{Name: "a", Digest: file}}}}
+		tb, _ := proto.Marshal(tree)
+		ar.OutputDirectories = []*pb.OutputDirectory{{Path: "bazel-out/dir", TreeDigest: store(tb)}}
+	case "withSymlinks":
+		ar.OutputSymlinks = []*pb.OutputSymlink{{Path: "bazel-out/link", Target: "f"}}
+		ar.OutputFileSymlinks = []*pb.OutputSymlink{{Path: "bazel-out/flink", Target: "../x"}}
+	case "emptyDirPath":
+		tb, _ := proto.Marshal(&pb.Tree{Root: &pb.Directory{}})
+		ar.OutputDirectories = []*pb.OutputDirectory{{Path: "", TreeDigest: store(tb)}}
+	// invalid ones
+	case "fileEmptyPath":
+		ar.OutputFiles = append(ar.OutputFiles, &pb.OutputFile{Path: "", Digest: good})
+	case "fileAbsPath":
+		ar.OutputFiles = append(ar.OutputFiles, &pb.OutputFile{Path: "/etc/passwd", Digest: good})
+	case "fileNilDigest":
+		ar.OutputFiles = append(ar.OutputFiles, &pb.OutputFile{Path: "bazel-out/nodigest"})
+	case "fileNegSize":
+		ar.OutputFiles = append(ar.OutputFiles, &pb.OutputFile{Path: "bazel-out/neg", Digest: &pb.Digest{Hash: good.Hash, SizeBytes: -1}})
+	case "fileBadHash":
+		h := []string{"ABCDEF" + good.Hash[6:], good.Hash[:63], good.Hash + "0", "zz" + good.Hash[2:], ""}[rng.Intn(5)]
+		ar.OutputFiles = append(ar.OutputFiles, &pb.OutputFile{Path: "bazel-out/badhash", Digest: &pb.Digest{Hash: h, SizeBytes: 3}})
+	case "dirAbsPath":
+		tb, _ := proto.Marshal(&pb.Tree{Root: &pb.Directory{}})
+		ar.OutputDirectories = []*pb.OutputDirectory{{Path: "/abs/dir", TreeDigest: store(tb)}}
+	case "dirNilTree":
+		ar.OutputDirectories = []*pb.OutputDirectory{{Path: "bazel-out/d"}}
+	case "dirBadHash":
+		ar.OutputDirectories = []*pb.OutputDirectory{{Path: "bazel-out/d", TreeDigest: &pb.Digest{Hash: "nothex", SizeBytes: 1}}}
+	case "symEmptyPath":
+		ar.OutputSymlinks = []*pb.OutputSymlink{{Path: "", Target: "t"}}
+	case "symEmptyTarget":
+		if rng.Intn(2) == 0 {
+			ar.OutputFileSymlinks = []*pb.OutputSymlink{{Path: "bazel-out/l", Target: ""}}
+		} else {
+			ar.OutputDirectorySymlinks = []*pb.OutputSymlink{{Path: "bazel-out/l", Target: ""}}
+		}
+	case "symAbsPath":
+		ar.OutputDirectorySymlinks = []*pb.OutputSymlink{{Path: "/abs/l", Target: "t"}}
+	case "stdoutBadHash":
+		ar.StdoutDigest = &pb.Digest{Hash: good.Hash[:10], SizeBytes: 5}
+	case "stderrNegSize":
+		ar.StderrDigest = &pb.Digest{Hash: good.Hash, SizeBytes: -5}
+	case "inlineFileWrongDigest":
+		c := blob()
+		ar.OutputFiles = append(ar.OutputFiles, &pb.OutputFile{Path: "bazel-out/lying", Digest: dg(append([]byte("x"), c...)), Contents: c})
+	case "inlineStdoutWrongDigest":
+		c := blob()
+		ar.StdoutRaw, ar.StdoutDigest = c, dg(append([]byte("y"), c...))
+	case "notAnActionResult":
+		raw = []byte{0xff, 0xff, 0xff, 0xff, 0x0f, 0x01, 0x02}
+	default:
+		return nil, nil, fmt.Errorf("unknown message class %s", class)
+	}
+	return ar, raw, err
+}
+
+// upload sends one message through an encoding and says whether it was accepted.
+func upload(f *fe.Fixture, key string, enc string, ar *pb.ActionResult, raw []byte) (string, error) {
+	switch enc {
+	case "grpc":
+		ctx, cancel := fe.Ctx()
+		defer cancel()
+		_, e := f.AC.UpdateActionResult(ctx, &pb.UpdateActionResultRequest{ActionDigest: &pb.Digest{Hash: key, SizeBytes: 9}, ActionResult: proto.Clone(ar).(*pb.ActionResult)})
+		if e == nil {
+			return "accept", nil
+		}
+		return "reject:" + status.Code(e).String(), nil
+	case "httpProto", "httpJson", "httpZstd":
+		hdr := map[string]string{}
+		body := raw
+		if body == nil {
+			if enc == "httpJson" {
+				b, e := protojson.Marshal(ar)
+				if e != nil {
+					return "", e
+				}
+				body = b
+			} else {
+				b, e := proto.Marshal(ar)
+				if e != nil {
+					return "", e
+				}
+				body = b
+			}
+		} else if enc == "httpJson" {
+			body = []byte(`{"outputFiles": [ {"path": 5, `)
+		}
+		if enc == "httpJson" {
+			hdr["Content-Type"] = "application/json"
+		}
+		if enc == "httpZstd" {
+			hdr["X-Digest-SizeBytes"] = fmt.Sprint(len(body))
+			hdr["Content-Encoding"] = "zstd"
+			body = zstdEncode(body)
+		}
+		code, _, _, e := f.HTTPDo(http.MethodPut, "/ac/"+key, body, hdr)
+		if e != nil {
+			return "", e
+		}
+		if code == 200 {
+			return "accept", nil
+		}
+		return fmt.Sprintf("reject:%d", code), nil
+	}
+	return "", fmt.Errorf("unknown encoding %s", enc)
+}
+
+// normalise brings an uploaded and a returned message to a common form: the
+// documented server-side changes are undone (worker name filled in when it was
+// absent; inline contents replaced by their true digest).
+func normalise(m *pb.ActionResult, workerGiven bool) *pb.ActionResult {
+	c := proto.Clone(m).(*pb.ActionResult)
+	if !workerGiven && c.ExecutionMetadata != nil {
+		c.ExecutionMetadata.Worker = ""
+		if proto.Equal(c.ExecutionMetadata, &pb.ExecutedActionMetadata{}) {
+			c.ExecutionMetadata = nil
+		}
+	}
+	if len(c.StdoutRaw) > 0 {
+		c.StdoutDigest = dg(c.StdoutRaw)
+		c.StdoutRaw = nil
+	}
+	if len(c.StderrRaw) > 0 {
+		c.StderrDigest = dg(c.StderrRaw)
+		c.StderrRaw = nil
+	}
+	for _, of := range c.OutputFiles {
+		if len(of.Contents) > 0 {
+			of.Digest = dg(of.Contents)
+			of.Contents = nil
+		}
+	}
+	return c
+}
+
+// RunACHists executes upload histories.
+func RunACHists(hists []ACHist, seed int64, mode string, stride int) (runs []ACHistRun, viols []drv.Violation, err error) {
+	rng := rand.New(rand.NewSource(seed))
+	f, e := fe.New(fe.Opts{Mode: mode, MaxSize: 1 << 30})
+	if e != nil {
+		return nil, nil, e
+	}
+	defer f.Close()
+	for hi, h := range hists {
+		if stride > 1 && (hi+int(seed))%stride != 0 {
+			continue
+		}
+		key := drv.MkBlob([]byte(fmt.Sprintf("achist-%d-%d", seed, hi))).Hash
+		bad := func(fmtS string, a ...any) {
+			viols = append(viols, drv.Violation{Prop: "C11", What: fmt.Sprintf("history %v mode=%s: ", h.Uploads, mode) + fmt.Sprintf(fmtS, a...), Hist: hi})
+		}
+		run := ACHistRun{Hist: h}
+		var want *pb.ActionResult // normalised message expected to be stored
+		var wantWorker string
+		for i, u := range h.Uploads {
+			ar, raw, e := buildMsg(f, rng, u.Msg)
+			if e != nil {
+				return runs, viols, e
+			}
+			_, _, nBefore, _ := f.Cache.Stats()
+			ans, e := upload(f, key, u.Enc, ar, raw)
+			if e != nil {
+				return runs, viols, e
+			}
+			run.Answers = append(run.Answers, ans)
+			accepted := ans == "accept"
+			if accepted != (h.Outcomes[i] == "accept") {
+				bad("upload %d (%s via %s) answered %s, the specification says %s", i+1, u.Msg, u.Enc, ans, h.Outcomes[i])
+			}
+			if h.Outcomes[i] == "accept" {
+				given := ar.ExecutionMetadata != nil && ar.ExecutionMetadata.Worker != ""
+				want = normalise(ar, given)
+				wantWorker = ""
+				if given {
+					wantWorker = ar.ExecutionMetadata.Worker
+				}
+			} else {
+				_, _, nAfter, _ := f.Cache.Stats()
+				if nAfter != nBefore {
+					bad("rejected upload %d (%s via %s) changed the number of stored items from %d to %d", i+1, u.Msg, u.Enc, nBefore, nAfter)
+				}
+			}
+			// what is stored now, through every read path
+			ctx, cancel := fe.Ctx()
+			got, ge := f.AC.GetActionResult(ctx, &pb.GetActionResultRequest{ActionDigest: &pb.Digest{Hash: key, SizeBytes: 9}})
+			cancel()
+			code, body, _, he := f.HTTPDo(http.MethodGet, "/ac/"+key, nil, nil)
+			if he != nil {
+				return runs, viols, he
+			}
+			jcode, jbody, _, he := f.HTTPDo(http.MethodGet, "/ac/"+key, nil, map[string]string{"Accept": "application/json"})
+			if he != nil {
+				return runs, viols, he
+			}
+			if want == nil {
+				if status.Code(ge) != codes.NotFound || code != 404 {
+					bad("after upload %d nothing valid was uploaded, yet GetActionResult answers %s and HTTP GET %d", i+1, status.Code(ge), code)
+				}
+				run.ReadBack = "miss"
+				continue
+			}
+			if ge != nil || code != 200 || jcode != 200 {
+				bad("after upload %d the latest accepted message should be served; GetActionResult=%v HTTP GET=%d JSON GET=%d", i+1, status.Code(ge), code, jcode)
+				continue
+			}
+			views := map[string]*pb.ActionResult{"grpc": got}
+			hp := &pb.ActionResult{}
+			if e := proto.Unmarshal(body, hp); e != nil {
+				bad("HTTP GET returned bytes that do not parse as an ActionResult: %v", e)
+				continue
+			}
+			views["httpProto"] = hp
+			jp := &pb.ActionResult{}
+			if e := protojson.Unmarshal(jbody, jp); e != nil {
+				bad("HTTP GET (JSON) returned bytes that do not parse: %v", e)
+				continue
+			}
+			views["httpJson"] = jp
+			for name, v := range views {
+				if v.ExecutionMetadata == nil || v.ExecutionMetadata.Worker == "" {
+					bad("%s view of the stored message has no worker name", name)
+				} else if wantWorker != "" && v.ExecutionMetadata.Worker != wantWorker {
+					bad("%s view: worker name %q was overwritten with %q", name, wantWorker, v.ExecutionMetadata.Worker)
+				}
+				n := normalise(v, wantWorker != "")
+				if !proto.Equal(n, want) {
+					bad("%s view differs from the latest accepted upload (upload %d of the history): got %v want %v", name, h.Stored, n, want)
+				}
+			}
+			run.ReadBack = "hit"
+		}
+		runs = append(runs, run)
+	}
+	return runs, viols, nil
 }
